@@ -132,7 +132,7 @@ func init() {
 		},
 		"vReach": func(m *Machine, fr *frame, fn *ssa.Function, args []Value) Value {
 			if !m.inReplay() {
-				m.stat("reach:" + strArg(args[0])).Reached++
+				m.stat("reach:"+strArg(args[0])).Reached++
 			}
 			return nil
 		},
@@ -241,6 +241,10 @@ func init() {
 		"vNative": func(m *Machine, fr *frame, fn *ssa.Function, args []Value) Value { return tFalse },
 		"vTimerLateMax": func(m *Machine, fr *frame, fn *ssa.Function, args []Value) Value {
 			m.ghost["timerlate"] = args[0].(*Term)
+			return nil
+		},
+		"vLazyTimers": func(m *Machine, fr *frame, fn *ssa.Function, args []Value) Value {
+			m.ghost["lazytimers"] = tTrue
 			return nil
 		},
 		"vSpinIsViolation": func(m *Machine, fr *frame, fn *ssa.Function, args []Value) Value {
@@ -516,9 +520,17 @@ func registerSync() {
 		m.wgWait(a[0].(*Value))
 		return nil
 	}
-	// sync.Pool: Get returns New() (or nil); Put discards. Recycling is outside the model.
+	// sync.Pool: Put keeps the value, Get returns the most recently put value (LIFO, what a
+	// single P does) or New() when the pool is empty. Dropping of pooled values by the GC and
+	// other orders of reuse are outside the model.
 	I["(*sync.Pool).Get"] = func(m *Machine, fr *frame, fn *ssa.Function, a []Value) Value {
 		p := a[0].(*Value)
+		if items := m.pools[p]; len(items) > 0 {
+			it := items[len(items)-1]
+			m.pools[p] = items[:len(items)-1]
+			m.hbAcquire(m.cur, it.vc)
+			return it.v
+		}
 		st := (*p).(structV)
 		newFn := st[len(st)-1]
 		if isNilValue(newFn) {
@@ -526,7 +538,19 @@ func registerSync() {
 		}
 		return m.call(fr, 0, newFn, nil, nil)
 	}
-	I["(*sync.Pool).Put"] = func(m *Machine, fr *frame, fn *ssa.Function, a []Value) Value { return nil }
+	I["(*sync.Pool).Put"] = func(m *Machine, fr *frame, fn *ssa.Function, a []Value) Value {
+		p := a[0].(*Value)
+		if ifc, ok := a[1].(Iface); ok && ifc.T == nil {
+			return nil
+		}
+		it := pooled{v: a[1]}
+		m.hbRelease(m.cur, &it.vc)
+		if m.pools == nil {
+			m.pools = map[*Value][]pooled{}
+		}
+		m.pools[p] = append(m.pools[p], it)
+		return nil
+	}
 
 	// sync/atomic functions
 	for _, ty := range []string{"Int32", "Int64", "Uint32", "Uint64", "Uintptr"} {
